@@ -1,8 +1,276 @@
 import Lean.Data.Json
-/- stub: the C04 driver is not built yet -/
-namespace Glom.C04.Driver
-open Lean
+import Glom.Spec.C04
+import Glom.Model.C04Env
+/-
+  C04 driver: one JSON case in, one JSON verdict out.
 
-def run (_j : Json) : Except String Json := .error "property C04: driver not implemented yet"
+  case:
+    "classes":  [{"name":n,"base":b,"shape":Shape|null,"falsy":bool}…]   user classes (base: user / builtin / glom class)
+    "exc":      {"cls":n,"init":[AVal…],"kw":bool,"set_args":[AVal…]|null}  the prepared exception object
+    "spec":     Sp      "ok"|"fault"|"badPath"|"badMatch"|{"tup":[…]}|{"dct":[…]}|{"lst":Sp}|{"frame":Sp}
+                        |{"coal":[…],"skip":[names]|null,"dflt":bool}
+    "settings": {"default":bool,"skip":[names]|null,"debug":bool|null}
+    "recorder": bool    the whole spec is wrapped in a recording frame
+    "impl":     {"ctor_error":true}
+              | {"orig":{"mro":[…],"args":[…],"rebuild":[…]|null,"falsy":b},
+                 "origin": null | "unknown" | {"injected":true} | {"internal":cls,"args":[…]},
+                 "obs": {"returned":"value"|"default"|"none"}
+                      | {"raised":{"mro":[…],"args":[…],"same":b,"instOrig":b,"instGlom":b}}}
+  AVal: null | {"i":n} | {"s":str} | {"y":hex} | {"o":id}
+  Shape: {"sig":[lo, hi|null, kwReq, Store]} | "oserror" | "unicode"
+  Store: "all" | "nosuper" | {"pre":k} | "len" | {"const":s} | "rev" | "tme"
+-/
+namespace Glom.C04.Driver
+open Lean Glom Glom.C04
+
+def arr (j : Json) : Except String (List Json) :=
+  match j with
+  | .arr a => .ok a.toList
+  | _ => .error s!"expected array, got {j.compress}"
+
+def avalOfJson (j : Json) : Except String AVal :=
+  match j with
+  | .null => .ok .none
+  | _ =>
+    if let .ok i := j.getObjValAs? Int "i" then .ok (.int i)
+    else if let .ok s := j.getObjValAs? String "s" then .ok (.str s)
+    else if let .ok s := j.getObjValAs? String "y" then .ok (.bytes s)
+    else if let .ok n := j.getObjValAs? Nat "o" then .ok (.obj n)
+    else .error s!"bad AVal {j.compress}"
+
+def avalToJson : AVal → Json
+  | .none => .null
+  | .int i => Json.mkObj [("i", toJson i)]
+  | .str s => Json.mkObj [("s", s)]
+  | .bytes s => Json.mkObj [("y", s)]
+  | .obj n => Json.mkObj [("o", n)]
+
+def argsOfJson (j : Json) : Except String Args := do (← arr j).mapM avalOfJson
+def argsToJson (a : Args) : Json := Json.arr (a.map avalToJson).toArray
+def strsOfJson (j : Json) : Except String (List String) := do
+  (← arr j).mapM (fun x => match x with | .str s => .ok s | _ => .error "expected string")
+
+def storeOfJson (j : Json) : Except String Store :=
+  match j with
+  | .str "all" | .str "nosuper" => .ok .all
+  | .str "len" => .ok .len
+  | .str "rev" => .ok .rev
+  | .str "tme" => .ok .tme
+  | _ =>
+    if let .ok k := j.getObjValAs? Nat "pre" then .ok (.pre k)
+    else if let .ok s := j.getObjValAs? String "const" then .ok (.const s)
+    else .error s!"bad Store {j.compress}"
+
+def shapeOfJson (j : Json) : Except String Shape :=
+  match j with
+  | .str "oserror" => .ok .oserror
+  | .str "unicode" => .ok .unicodeDecode
+  | _ => do
+    match ← arr (← j.getObjVal? "sig") with
+    | [lo, hi, kw, st] =>
+      let lo ← lo.getNat?
+      let hi ← (match hi with | .null => pure none | h => do return some (← h.getNat?))
+      let kw ← kw.getBool?
+      return .sig lo hi kw (← storeOfJson st)
+    | _ => throw s!"bad Shape {j.compress}"
+
+structure UserCls where
+  name : String
+  base : String
+  shape : Option Shape
+  falsy : Bool
+
+def userClsOfJson (j : Json) : Except String UserCls := do
+  let sh ← (match j.getObjVal? "shape" with
+    | .ok .null => pure none
+    | .ok s => do return some (← shapeOfJson s)
+    | .error _ => pure none)
+  return { name := ← j.getObjValAs? String "name", base := ← j.getObjValAs? String "base",
+           shape := sh, falsy := (j.getObjValAs? Bool "falsy").toOption.getD false }
+
+/-- constructor of a class that exists in /repo: the two C constructors that rewrite their
+    arguments, glom's own classes by their extracted rows, everything else stores all -/
+def builtinShape (c : String) : Shape :=
+  let m := tableMro Generated.excTable c
+  if m.contains "OSError" then .oserror
+  else if c == "UnicodeDecodeError" then .unicodeDecode
+  else (internalShape Generated.excCtor c).getD (.sig 0 none false .all)
+
+/-- (MRO, constructor shape, falsy) of a class by name -/
+def resolve (us : List UserCls) : Nat → String → List String × Shape × Bool
+  | 0, c => (tableMro Generated.excTable c, builtinShape c, false)
+  | fuel + 1, c =>
+    match us.find? (·.name == c) with
+    | some u =>
+      let (bm, bs, bf) := resolve us fuel u.base
+      (u.name :: bm, u.shape.getD bs, u.falsy || bf)
+    | none => (tableMro Generated.excTable c, builtinShape c, false)
+
+def classInfo (us : List UserCls) (c : String) : ClassInfo × Shape :=
+  let (m, sh, f) := resolve us (us.length + 1) c
+  (mkClass c (m.drop 1) sh f, sh)
+
+partial def spOfJson (j : Json) : Except String Sp :=
+  match j with
+  | .str "ok" => .ok .ok
+  | .str "fault" => .ok .fault
+  | .str "badPath" => .ok .badPath
+  | .str "badMatch" => .ok .badMatch
+  | _ => do
+    if let .ok xs := j.getObjVal? "tup" then return .tup (← (← arr xs).mapM spOfJson)
+    else if let .ok xs := j.getObjVal? "dct" then return .dct (← (← arr xs).mapM spOfJson)
+    else if let .ok x := j.getObjVal? "lst" then return .lst (← spOfJson x)
+    else if let .ok x := j.getObjVal? "frame" then return .frame (← spOfJson x)
+    else if let .ok xs := j.getObjVal? "coal" then
+      let skip ← (match j.getObjVal? "skip" with
+        | .ok .null => pure none
+        | .ok s => do return some (← strsOfJson s)
+        | .error _ => pure none)
+      return .coal (← (← arr xs).mapM spOfJson) skip ((j.getObjValAs? Bool "dflt").toOption.getD false)
+    else throw s!"bad Sp {j.compress}"
+
+def settingsOfJson (j : Json) : Except String Settings := do
+  let d ← j.getObjValAs? Bool "default"
+  let skip ← (match j.getObjVal? "skip" with
+    | .ok .null => pure none
+    | .ok s => do return some (← strsOfJson s)
+    | .error _ => pure none)
+  let dbg := match j.getObjVal? "debug" with
+    | .ok (.bool b) => some b
+    | _ => none
+  return { default := if d then some 1 else none, skipExc := skip, debug := dbg }
+
+def obsOfJson (j : Json) : Except String Obs := do
+  if let .ok k := j.getObjValAs? String "returned" then
+    match k with
+    | "value" => return .returned .value
+    | "default" => return .returned .defaultObj
+    | "none" => return .returned .noneObj
+    | _ => throw s!"bad returned kind {k}"
+  else
+    let r ← j.getObjVal? "raised"
+    return .raised { mro := ← strsOfJson (← r.getObjVal? "mro"), args := ← argsOfJson (← r.getObjVal? "args"),
+                     same := ← r.getObjValAs? Bool "same", instOrig := ← r.getObjValAs? Bool "instOrig",
+                     instGlom := ← r.getObjValAs? Bool "instGlom" }
+
+def obsToJson : Obs → Json
+  | .returned .value => Json.mkObj [("returned", "value")]
+  | .returned .defaultObj => Json.mkObj [("returned", "default")]
+  | .returned .noneObj => Json.mkObj [("returned", "none")]
+  | .raised r => Json.mkObj [("raised", Json.mkObj [("mro", toJson r.mro), ("args", argsToJson r.args),
+      ("same", r.same), ("instOrig", r.instOrig), ("instGlom", r.instGlom)])]
+
+/-- which branch of the model decided the outcome (for the histogram) -/
+def branchOf (F : Facts) (s : Settings) (origin : Option ExcObj) (r : Res) : String :=
+  match origin, r with
+  | none, _ => "no-exception"
+  | some _, .value => "value?"
+  | some _, .dflt .none_ => "skip→None"
+  | some _, .dflt (.given _) => "skip→default-object"
+  | some e, .exc _ =>
+    if !matchesAny e F.outerCatch then "BaseException-only→untouched"
+    else if effDebug F s then "debug→original"
+    else if isInst e "GlomError" then
+      match pyCopy F e with
+      | none => "glomerror:copy-raises→original"
+      | some c => if c.args != e.args then "glomerror:copy-args-differ→original" else
+          (if usesTmeCopy e.cls then "glomerror:__copy__" else "glomerror:copied")
+    else
+      match (wrapClass e.cls).ctor e.args with
+      | none => "foreign:rebuild-raises→original"
+      | some a => if a != e.args then "foreign:rebuild-args-differ→original" else "foreign:wrapped"
+
+def run (j : Json) : Except String Json := do
+  let us ← (← arr (← j.getObjVal? "classes")).mapM userClsOfJson
+  let ej ← j.getObjVal? "exc"
+  let cname ← ej.getObjValAs? String "cls"
+  let init ← argsOfJson (← ej.getObjVal? "init")
+  let kw := (ej.getObjValAs? Bool "kw").toOption.getD false
+  let setArgs ← (match ej.getObjVal? "set_args" with
+    | .ok .null => pure none
+    | .ok a => do return some (← argsOfJson a)
+    | .error _ => pure none)
+  let spec0 ← spOfJson (← j.getObjVal? "spec")
+  let recorder := (j.getObjValAs? Bool "recorder").toOption.getD false
+  let spec := if recorder then Sp.frame spec0 else spec0
+  let s ← settingsOfJson (← j.getObjVal? "settings")
+  let impl ← j.getObjVal? "impl"
+  let F := genFacts
+  let (ci, sh) := classInfo us cname
+  -- the prepared exception object
+  let built := sh.construct init kw
+  if let .ok true := impl.getObjValAs? Bool "ctor_error" then
+    match built with
+    | none => return Json.mkObj [("skip", true), ("why", "the prepared exception cannot be constructed (model agrees)")]
+    | some a => return Json.mkObj [("agree", false), ("holds", true), ("branch", "ctor-disagreement"),
+        ("model", Json.mkObj [("orig_args", argsToJson a)]), ("why", "model constructs, implementation raises")]
+  let some a0 := built
+    | return Json.mkObj [("agree", false), ("holds", true), ("branch", "ctor-disagreement"),
+        ("model", Json.mkObj [("ctor", "raises")]), ("why", "model says the constructor raises, implementation built it")]
+  let e0 : ExcObj := { id := 0, cls := ci, args := setArgs.getD a0 }
+  -- validation of the class model against the real object
+  let io ← impl.getObjVal? "orig"
+  let implOrigMro ← strsOfJson (← io.getObjVal? "mro")
+  let implOrigArgs ← argsOfJson (← io.getObjVal? "args")
+  let implRebuild ← (match io.getObjVal? "rebuild" with
+    | .ok .null => pure none
+    | .ok a => do return some (← argsOfJson a)
+    | .error _ => pure none)
+  let implFalsy ← io.getObjValAs? Bool "falsy"
+  let classAgree := implOrigMro == ci.mro && implOrigArgs == e0.args &&
+    implRebuild == ci.ctor e0.args && implFalsy == ci.falsy
+  -- where the fault originates
+  let E : EvalEnv := { F := F, injMro := ci.mro }
+  let outc := eval E spec
+  let implOrigin ← impl.getObjVal? "origin"
+  let implInternal : Option (String × Args) ←
+    (match implOrigin.getObjValAs? String "internal" with
+     | .ok c => do return some (c, ← argsOfJson (← implOrigin.getObjVal? "args"))
+     | .error _ => pure none)
+  let mkInternal := fun (c : String) (a : Args) =>
+    ({ id := 10, cls := repoClass c (builtinShape c), args := a } : ExcObj)
+  -- origin for the model: predicted by `eval`; an internal error takes its args from the recording
+  let modelOrigin : Option ExcObj := match outc with
+    | .val => none
+    | .exc .injected => some e0
+    | .exc (.internal c) => some (mkInternal c (match implInternal with | some (_, a) => a | none => []))
+  -- origin for the checker: what the recording frame saw, else the model's prediction
+  let implOriginObj : Option ExcObj :=
+    match implOrigin with
+    | .null => none
+    | .str _ => modelOrigin                      -- "unknown": no recording frame
+    | _ => match implInternal with
+      | some (c, a) => some (mkInternal c a)
+      | none => some e0
+  let originAgree : Bool := match implOrigin, outc with
+    | .null, .val => true
+    | .str _, .val => true
+    | .str _, .exc .injected => true
+    | .str _, .exc (.internal _) => false
+    | _, .exc .injected => implInternal.isNone && implOrigin != .null
+    | _, .exc (.internal c) => (match implInternal with | some (c', _) => c == c' | none => false)
+    | _, _ => false
+  if let (.str _, .exc (.internal _)) := (implOrigin, outc) then
+    return Json.mkObj [("skip", true), ("why", "internal error without a recording frame")]
+  let body : Body := match modelOrigin with | some e => .exc e | none => .val
+  let res := glomTop F s body
+  let modelObs := observe modelOrigin res
+  let implObs ← obsOfJson (← impl.getObjVal? "obs")
+  let holds := checkC04 s implOriginObj implObs
+  let modelHolds := checkC04 s modelOrigin modelObs
+  let agree := classAgree && originAgree && modelObs == implObs
+  let originTag := match outc with
+    | .val => "" | .exc .injected => "injected/" | .exc (.internal c) => s!"{c}/"
+  return Json.mkObj [("agree", agree), ("holds", holds), ("model_holds", modelHolds),
+    ("wf", WF F),
+    ("model", Json.mkObj [("obs", obsToJson modelObs), ("orig_mro", toJson ci.mro),
+      ("orig_args", argsToJson e0.args), ("rebuild", match ci.ctor e0.args with | some a => argsToJson a | none => .null),
+      ("falsy", ci.falsy),
+      ("origin", match outc with | .val => .null | .exc .injected => "injected" | .exc (.internal c) => c)]),
+    ("branch", (originTag ++ branchOf F s modelOrigin res : String)),
+    ("why", (if agree then "" else
+      (if !classAgree then "class model (mro/args/rebuild/falsy) differs; " else "") ++
+      (if !originAgree then "origin differs; " else "") ++
+      (if modelObs != implObs then "observation differs" else "") : String))]
 
 end Glom.C04.Driver
